@@ -14,8 +14,9 @@ of the peer's request `r`; `waiting s` — `AsyncResult.wait()` of the own reque
 client between calls.
 
 The connection is open throughout (how it ends is the lifecycle automaton, `Proto/Life.lean`); the only
-way a side could stop here is an exception other than EOFError leaving `_dispatch_request` (`propagate`);
-the theorems show that no handler outcome leads there.
+way a side stops here is an exception other than EOFError leaving `_dispatch_request` (`propagate`); the
+theorems show that the only handler outcome that leads there is the one the configuration asks for
+(`raiseLocal`: SystemExit / KeyboardInterrupt with its `propagate_*_locally` switch on).
 
 Ghost fields (`issued`, `executed`, `answered`, `abandoned`, `results`, `dropped`, `injected`, `wire`)
 record history; no transition reads them.
@@ -47,7 +48,13 @@ def RKind.code : RKind → Nat
 
 /-- what happens to one received request inside `_dispatch_request`:
 `value` / `ref` — the handler returns something that is boxed by value / by reference;
-`raise` — the handler (or a nested request it made) raises;
+`raise` — the handler (or a nested request it made) raises an `Exception`;
+`raiseBase` — it raises a `BaseException` that is not an `Exception` (`asyncio.CancelledError`, `GeneratorExit`,
+a user class deriving from `BaseException`, and `SystemExit` / `KeyboardInterrupt` while the matching
+`propagate_*_locally` switch is off, the default): the bare `except:` catches it like any other;
+`raiseLocal` — it raises `SystemExit` / `KeyboardInterrupt` and the connection is CONFIGURED to propagate
+that exception locally (`propagate_SystemExit_locally` / `propagate_KeyboardInterrupt_locally` on): the
+`except:` suite re-raises it, by configuration it is not answered;
 `undecodableArgs` — `handler, args = raw_args`, `_unbox(args)` or the handler lookup raises (bad label,
 unknown local id, unknown handler, wrong arity): the handler does not run;
 `unencodableResult` — the handler returns a value that `_box`/`brine.dump` rejects while encoding
@@ -55,7 +62,7 @@ unknown local id, unknown handler, wrong arity): the handler does not run;
 `unserializableExc` — the handler raises an exception whose own payload cannot be built or encoded
 (`repr()` of an argument raises, an int argument beyond the digit limit, …). -/
 inductive Outcome where
-  | value | ref | raise | undecodableArgs | unencodableResult | unserializableExc
+  | value | ref | raise | raiseBase | raiseLocal | undecodableArgs | unencodableResult | unserializableExc
   deriving DecidableEq, Repr
 
 inductive Msg where
@@ -78,7 +85,7 @@ inductive Action where
 
 /-- the `try:` suite (`handler, args = raw_args; args = self._unbox(args); res = self._HANDLERS[handler](self, *args)`) raises -/
 def trySuiteRaises : Outcome → Bool
-  | .raise | .undecodableArgs | .unserializableExc => true
+  | .raise | .raiseBase | .raiseLocal | .undecodableArgs | .unserializableExc => true
   | .value | .ref | .unencodableResult => false
 
 /-- the handler itself was invoked (`undecodableArgs` fails before the call) -/
@@ -114,16 +121,26 @@ def sendException (o : Outcome) : Action :=
     (if plainPayloadRaises then .propagate else .respond .exc)
   else .respond .exc
 
+/-- `if t is SystemExit and self._config["propagate_SystemExit_locally"]: raise` and the same for
+`KeyboardInterrupt`: true only for the configured-local outcome -/
+def reraisedLocally : Outcome → Bool
+  | .raiseLocal => true
+  | _ => false
+
 /-- ```
 try:    handler, args = raw_args; args = self._unbox(args); res = self._HANDLERS[handler](self, *args)
-except: …; self._send_exception(seq, t, v, tb)
+except: …                                   -- a BARE except: every BaseException lands here
+        if t is SystemExit and self._config["propagate_SystemExit_locally"]: raise
+        if t is KeyboardInterrupt and self._config["propagate_KeyboardInterrupt_locally"]: raise
+        self._send_exception(seq, t, v, tb)
 else:
     try:                self._send(consts.MSG_REPLY, seq, self._box(res))
     except EOFError:    raise                      -- transport gone: lifecycle automaton, not here
     except Exception:   …; self._send_exception(seq, t, v, tb)
 ``` -/
 def dispatchRequest (o : Outcome) : Action :=
-  if trySuiteRaises o then sendException o
+  if trySuiteRaises o then
+    (if reraisedLocally o then .propagate else sendException o)
   else
     (if replySendRaises o then sendException o else .respond .reply)
 
